@@ -249,3 +249,71 @@ Print Assumptions C19_generated_mse.
 Print Assumptions C19_generated_rmse.
 Print Assumptions C19_generated_rsquare.
 Print Assumptions C19_generated_nrmse.
+
+(* ================================================================================================================
+   The R-vs-Q instance gap, closed by proof (base/NumHom.v, proofs/QR_bridge_C19.v).
+   The theorems above are about model/Metrics.v at F := R; the correspondence run (run/RunC19.v) evaluates the SAME term at
+   F := Q.  [Q2R] is a homomorphism of the [Num] class (division included: x/0 = 0 on both sides; both boolean comparisons are
+   reflected, so max / min / the insertion sort behind np.quantile take the same branches), hence every metric commutes with the
+   entry-wise embedding of 1-D / 2-D / 3-D arrays [qarr := earr Q2R] ([qres]: a scalar or one value per feature, embedded;
+   [qpair]: both components of a (numerator, denominator) pair embedded; [esum g]: g applied to a scalar result or to every
+   per-feature result; None = the shape mismatch, on both sides).  No shape hypothesis and no side condition. *)
+From RV Require Import base.NumHom proofs.QR_bridge_C19.
+
+(* mse, rsquare, the R^2 parts, the nrmse parts for the four norms (minmax / var / mean / q1q3) and for a given norm_value,
+   dimensionwise on or off, arrays of any rank; the matrix handed to spectral_radius *)
+Theorem C19_Qmetrics_embed :
+  (forall (dw : bool) (y p : arr Q), mse dw (qarr y) (qarr p) = option_map qres (mse dw y p)) /\
+  (forall (dw : bool) (y p : arr Q), rsquare dw (qarr y) (qarr p) = option_map qres (rsquare dw y p)) /\
+  (forall (dw : bool) (y p : arr Q), rsquare_parts dw (qarr y) (qarr p) = esum qpair (rsquare_parts dw y p)) /\
+  (forall (dw : bool) (k : normk) (y p : arr Q), nrmse_parts dw k (qarr y) (qarr p) = esum qpair (nrmse_parts dw k y p)) /\
+  (forall (dw : bool) (nv : Q) (y p : arr Q), nrmse_parts_nv dw (Q2R nv) (qarr y) (qarr p) = esum qpair (nrmse_parts_nv dw nv y p)) /\
+  (forall (lr : Q) (W : list (list Q)), eff_matrix (Q2R lr) (qm2r W) = qm2r (eff_matrix lr W)).
+Proof. exact Qmetrics_embed. Qed.
+
+(* the 1-D functions the theorems above are stated about *)
+Theorem C19_Qmetrics_1d_embed :
+  (forall y p : list Q, Q2R (mse1 y p) = mse1 (qv2r y) (qv2r p)) /\
+  (forall y p : list Q, Q2R (rsquare1 y p) = rsquare1 (qv2r y) (qv2r p)) /\
+  (forall y : list Q, Q2R (sstot y) = sstot (qv2r y)) /\
+  (forall (k : normk) (y : list Q), Q2R (norm1 k y) = norm1 k (qv2r y)) /\
+  (forall (a b : nat) (v : list Q), Q2R (quantile a b v) = quantile a b (qv2r v)) /\
+  (forall v : list Q, qv2r (isort v) = isort (qv2r v)) /\
+  (forall v : list Q, Q2R (vmax v) = vmax (qv2r v) /\ Q2R (vmin v) = vmin (qv2r v)).
+Proof. exact Qmetrics_1d_embed. Qed.
+
+(* non-vacuity: 5 x 2 arrays, per-feature (mse, q1q3 norm) -- sort and interpolation included -- evaluated at R *)
+Example C19_Qmetrics_nrmse_example :
+  nrmse_parts true Q1Q3 (qarr c19_exy) (qarr c19_exp)
+  = Some (inr [(Q2R (1#8)%Q, Q2R (1#1)%Q); (Q2R (1#5)%Q, Q2R (5#2)%Q)]).
+Proof. exact Qmetrics_nrmse_example. Qed.
+
+Print Assumptions C19_Qmetrics_embed.
+Print Assumptions C19_Qmetrics_1d_embed.
+
+(* ---- the verdict of the correspondence runner, read at R ----
+   [rclose m o] is |m - o| <= 1e-9 * max(1,|m|) on reals.  Per output entry (a scalar, or every feature: [cmpP]; the model
+   rejects iff a ValueError was observed):  close_to m ox: the observed float is finite and rclose m it;  sq_close_to: finite,
+   >= 0 and its square rclose;  nrmse_okR (mse, norm) ox: norm = 0 and not finite, or norm <> 0, finite, observed^2 rclose to
+   mse / norm^2 and observed * norm >= 0;  rsq_okR (d, D) ox: D = 0 and not finite, or D <> 0 and observed rclose to 1 - d / D.
+   A verdict [true] of the C19 runner IS a statement about the R-instance of model/Metrics.v on the embedded arrays. *)
+From RV Require Import run.RunC19.
+
+Theorem C19_chk_metrics_are_about_R_model :
+  (forall dw y p o, chk_mse dw y p o = true -> cmpP close_to (ofresF (mse dw (qarr y) (qarr p))) o) /\
+  (forall dw y p o, chk_rmse dw y p o = true -> cmpP sq_close_to (ofresF (rmse_sq dw (qarr y) (qarr p))) o) /\
+  (forall dw k y p o, chk_nrmse dw k y p o = true -> cmpP nrmse_okR (nrmse_parts dw k (qarr y) (qarr p)) o) /\
+  (forall dw nv y p o, chk_nrmse_nv dw nv y p o = true -> cmpP nrmse_okR (nrmse_parts_nv dw (Q2R nv) (qarr y) (qarr p)) o) /\
+  (forall dw y p o, chk_rsquare dw y p o = true ->
+     cmpP rsq_okR (rsquare_parts dw (qarr y) (qarr p)) o /\ cmpP close_if_finite (ofresF (rsquare dw (qarr y) (qarr p))) o) /\
+  (forall lr W M, chk_effmat lr W M = true -> mrclose (eff_matrix (Q2R lr) (qm2r W)) (qm2r M)) /\
+  (forall a b v o, chk_quantile a b v o = true -> rclose (quantile a b (qv2r v)) (Q2R o)).
+Proof. exact chk_metrics_are_about_R_model. Qed.
+
+(* non-vacuity: scenarios on which the runner answers true (per-feature nrmse with the q1q3 norm; a rejected shape mismatch) *)
+Example C19_chk_nrmse_example :
+  chk_nrmse true Q1Q3 c19_exy c19_exp (OV [Some (3535533905932738#10000000000000000)%Q; Some (17888543819998318#100000000000000000)%Q]) = true /\
+  chk_mse false c19_exy (A1 [(1#1)%Q]) OErr = true.
+Proof. vm_compute. split; reflexivity. Qed.
+
+Print Assumptions C19_chk_metrics_are_about_R_model.
